@@ -134,6 +134,21 @@ NOTES = {
     "C09_q": "first detected at proof level only (service_is_plain_clientservice); since round 8 the long-outage probe on the REAL "
              "ClientService (3 000 / 20 000 refused attempts) gives the concrete history.",
     "C04_a": "transit replay acceptance: caught by C06 (the channel property C04 builds on).",
+    "C09_z": "first missed (sessions never had more than ~70 peer phases before a replay); caught since the scripted long sessions "
+             "(140 / 300 / ... peer phases, then a reconnect with a full replay, then more traffic).  The same bounded-memory idea was "
+             "found independently by the authors of C02_z and C14_z.",
+    "C02_z": "first missed; caught since the long-session corpus of C02 (70 / 140 records, then a verbatim replay of the peer's version "
+             "and first records, then a reconnect replay).",
+    "C14_z": "first missed; caught since C14 runs the long-session family (kind long) and judges internal failures / self-closing.",
+    "C18_z": "first missed (no Deferred-mode session read more than a handful of messages); caught since the long get_message() sessions "
+             "(kind longread: 40 / 130 / ... messages, waiting reads and reads served from the backlog).",
+    "C01_zz": "first missed; caught since applications derive a key from inside the verifier/versions/message callback with the peer's "
+              "PAKE and VERSION arriving in one burst (kind derivecb).",
+    "C03_z": "first detected at proof level only; caught with a replay since one record is delivered far behind the others "
+             "(kind farahead: 40 / 70 / 150 records, one of them last).",
+    "C08_zz": "needs an exception reaching Boss.error while a close() is under way (a server frame the client cannot process): first "
+              "caught by C18 only (its error-path family); caught by C08 too since that family, restricted to the closing moments, "
+              "is judged by C08's exactly-one-closed clause.",
     "C04_x": "first detected at proof level only (the C04 world reported losses without a reason); caught with a replay since losses "
              "are reported as Twisted reports them (Failure(ConnectionDone) / Failure(ConnectionLost) / none, per case).",
     "C12_x": "first detected at proof level only; caught with a replay since frames without ciphertext (00 00 00 00) are fed in the "
